@@ -266,6 +266,25 @@ def run(ctx, crate, crs, tag=""):
             if names == ["current"] and s["r"]["k"] == "use":
                 d, _ = q.origin_thru(b, s["r"]["o"], transparent={"std::ops::Try::branch"})
                 okc = d["k"] == "call" and any(d["bb"] == x for x, _ in nn)
+        if not (okp and okc):
+            # `let left = mem::replace(&mut self.current, next); self.previous = Some(left);`
+            for i, t in b.calls():
+                f = t.get("f")
+                if f and f["name"] == "replace" and "mem" in f["path"] and len(t["args"]) == 2:
+                    dst = q.origin_thru(b, t["args"][0], transparent=set())[0]
+                    val = q.leaves(b, t["args"][1])
+                    if field_path(dst)[-1:] == ["current"] and "call:next_node" in val:
+                        okc = True
+                        # the replaced value is what goes into `previous`
+                        for i2, j2, s2 in b.assigns():
+                            names2 = [e.get("n") for e in s2["p"].get("p", []) if isinstance(e, dict) and "f" in e]
+                            if names2 == ["previous"]:
+                                lv = q.leaves(b, s2["r"]["o"]) if s2["r"]["k"] == "use" else set()
+                                if s2["r"]["k"] == "agg":
+                                    for o in s2["r"]["ops"]:
+                                        lv |= q.leaves(b, o)
+                                if "call:replace" in lv:
+                                    okp = True
         ctx.ob(R, b.key, "advance(previous=current,current=successor)", okp and okc, b.loc(),
                "stepping remembers the node just left as predecessor (needed to unlink the next node)")
 
